@@ -167,6 +167,14 @@ func NilPhiSites(fn *ssa.Function, isNilHelper func(*ssa.Function) bool, nilSafe
 						v, what = x.X, "load"
 					}
 				}
+			case *ssa.MakeInterface:
+				// a nil pointer put into an interface is a non-nil interface value: code that receives it cannot see the nil
+				// with `== nil` and calls the type's methods on the nil receiver. Only pointer types with at least one
+				// method that is not nil-receiver-safe, and only when the interface value leaves the function (argument,
+				// store, return) rather than being tested right here
+				if _, isPtr := x.X.Type().Underlying().(*types.Pointer); isPtr && ifaceEscapes(x) && hasUnsafeMethod(fn.Prog, x.X.Type(), nilSafe) {
+					v, what = x.X, "conversion to an interface (typed nil)"
+				}
 			}
 			if v == nil {
 				continue
@@ -281,6 +289,17 @@ func MayReturnNil(fns []*ssa.Function) map[*ssa.Function]bool {
 				if ph, isPhi := ret.Results[0].(*ssa.Phi); isPhi {
 					vals = ph.Edges
 				}
+				// named result in a function with a defer: the return loads the variable; look at what is stored into it
+				if ld, isLd := ret.Results[0].(*ssa.UnOp); isLd && ld.Op == token.MUL {
+					if al, isAl := ld.X.(*ssa.Alloc); isAl {
+						vals = nil
+						for _, ref := range *al.Referrers() {
+							if st, isSt := ref.(*ssa.Store); isSt && st.Addr == ssa.Value(al) {
+								vals = append(vals, st.Val)
+							}
+						}
+					}
+				}
 				for _, v := range vals {
 					if k, isK := v.(*ssa.Const); isK && k.Value == nil {
 						may[fn] = true
@@ -350,6 +369,14 @@ func NilCallSites(fn *ssa.Function, mayNil map[*ssa.Function]bool, isNilHelper f
 						v, what = x.X, "load"
 					}
 				}
+			case *ssa.MakeInterface:
+				// a nil pointer put into an interface is a non-nil interface value: code that receives it cannot see the nil
+				// with `== nil` and calls the type's methods on the nil receiver. Only pointer types with at least one
+				// method that is not nil-receiver-safe, and only when the interface value leaves the function (argument,
+				// store, return) rather than being tested right here
+				if _, isPtr := x.X.Type().Underlying().(*types.Pointer); isPtr && ifaceEscapes(x) && hasUnsafeMethod(fn.Prog, x.X.Type(), nilSafe) {
+					v, what = x.X, "conversion to an interface (typed nil)"
+				}
 			}
 			if v == nil {
 				continue
@@ -366,4 +393,89 @@ func NilCallSites(fn *ssa.Function, mayNil map[*ssa.Function]bool, isNilHelper f
 		}
 	}
 	return out
+}
+
+// ifaceEscapes: the interface value is handed on (call argument other than a nil test helper, store, return, phi).
+func ifaceEscapes(mi *ssa.MakeInterface) bool {
+	if mi.Referrers() == nil {
+		return false
+	}
+	for _, ref := range *mi.Referrers() {
+		switch x := ref.(type) {
+		case *ssa.Store:
+			// an element of a variadic argument list: judge the call that receives the list
+			if ia, isIA := x.Addr.(*ssa.IndexAddr); isIA {
+				if al, isAl := ia.X.(*ssa.Alloc); isAl {
+					handled, escapes := false, false
+					for _, r2 := range *al.Referrers() {
+						sl, isSl := r2.(*ssa.Slice)
+						if !isSl {
+							continue
+						}
+						for _, r3 := range *sl.Referrers() {
+							if ci, isCall := r3.(ssa.CallInstruction); isCall {
+								handled = true
+								cal := ci.Common().StaticCallee()
+								if cal == nil || !(checksTypedNil(cal) || (cal.Pkg != nil && cal.Pkg.Pkg.Path() == "fmt")) {
+									escapes = true
+								}
+							} else {
+								handled, escapes = true, true
+							}
+						}
+					}
+					if handled && !escapes {
+						continue
+					}
+				}
+			}
+			return true
+		case *ssa.Return, *ssa.Phi, *ssa.MapUpdate, *ssa.Send:
+			return true
+		case ssa.CallInstruction:
+			cal := x.Common().StaticCallee()
+			if cal != nil && (cal.Name() == "IsNil") {
+				continue
+			}
+			if cal != nil && cal.Pkg != nil && (cal.Pkg.Pkg.Path() == "fmt" || cal.Pkg.Pkg.Path() == "reflect") {
+				continue
+			}
+			if cal != nil && checksTypedNil(cal) {
+				continue // the receiver of the value looks for typed nils itself (reflect IsNil / gedcom.IsNil)
+			}
+			return true
+		}
+	}
+	return false
+}
+
+// hasUnsafeMethod: the pointer type has a method (declared in the analysed program) that dereferences a nil receiver.
+func hasUnsafeMethod(prog *ssa.Program, t types.Type, nilSafe func(*ssa.Function) bool) bool {
+	ms := prog.MethodSets.MethodSet(t)
+	for i := 0; i < ms.Len(); i++ {
+		m := prog.MethodValue(ms.At(i))
+		if m == nil || m.Blocks == nil || m.Synthetic != "" {
+			continue
+		}
+		if !nilSafe(m) {
+			return true
+		}
+	}
+	return false
+}
+
+// checksTypedNil: the function examines its arguments for typed nils (it calls reflect.Value.IsNil or an IsNil helper).
+func checksTypedNil(fn *ssa.Function) bool {
+	for _, b := range fn.Blocks {
+		for _, ins := range b.Instrs {
+			c, ok := ins.(ssa.CallInstruction)
+			if !ok {
+				continue
+			}
+			if cal := c.Common().StaticCallee(); cal != nil && cal.Name() == "IsNil" {
+				return true
+			}
+		}
+	}
+	return false
 }
